@@ -37,6 +37,7 @@ MINE = "C12"
 def all_cases(tier: str, seed: int):  # noqa: ANN201
     cfgs = ["stock", "eager"]
     rcfgs = ["stock", "eager"] * 3 + ["uvloop"]  # a share of the random cases on uvloop
+    yield from memstream.payload_cases()
     yield from memstream.sweep_c12(cfgs)
     rng = random.Random(seed * 6151 + 12)
     for _ in range(60000 if tier == "thorough" else 6000):
@@ -44,7 +45,7 @@ def all_cases(tier: str, seed: int):  # noqa: ANN201
 
 
 def judge(case: dict, col) -> None:  # noqa: ANN001
-    res = memstream.execute(case)
+    res = memstream.execute_payload(case) if case.get("t") == "payload" else memstream.execute(case)
     col.case(res["sig"], res["nontrivial"], sample={"case": case, "trace": res["log_tail"]})
     for k, v in res["windows"].items():
         col.count("window:" + k, v)
